@@ -15,6 +15,12 @@
 (c) options: cells user value x default through `generate(..., user_options)` and `${{o}}` against the
     model-independent reference `${{p[0]}}` with `p=[value]`, and `merge_options` against the model
     instantiated with the *pinned* test kinds (`c14.merge`);
+(c') option visibility: option names drawn from the interpreter's own namespace (built-ins `id count
+    child_index this today now fake template`, table / nickname names, variable names, field names of the
+    reading row, standard function names) read at a field of a top-level / nested / friend template, in
+    `count:`, in a top-level var, inside a macro body, in an included file, declared in the main or an
+    included file: value read == supplied value else default unless a *nearer* layer binds the name — the
+    order of the layers is the pinned order of `simple_field_vars` / `field_vars`;
 (d) known inputs: D12 (option truthiness — repaired by d8c74a2, kept as a regression case: a failing
     cell with a falsy value is reported as a plain VIOLATION with the recorded signature), D45
     (include_file cycle, repaired by 70277f6), D46 (macro cycle through a nested template, 97f2c27), D47
@@ -988,6 +994,157 @@ def compare_merge(rep, case, real, model):
         rep.disagreement("c14.merge", case, m, real)
 
 
+
+# ----------------------------------------------------------------------------- option visibility (scope)
+# An option resolves to the supplied value / the default *wherever it is declared and read*, unless a
+# nearer layer of the formula namespace binds the same name.  The order of the layers is pinned from
+# `EvaluationNamespace.simple_field_vars` (Gen.Compose.namespaceLayers, farthest first) + `field_vars`.
+
+SIG_SCOPE = "C14:option-shadowed-by-farther-layer"
+SCOPE_READS = ["top-field", "top-field-after", "nested-field", "friend-field", "count", "var", "macro-field",
+               "included-template"]
+
+
+def pinned_layers():
+    p = os.path.join(common.LEAN_DIR, "SnowModel", "Generated", "Compose.lean")
+    with open(p) as f:
+        t = f.read()
+    m = re.search(r"def namespaceLayers : List String :=\s*(\[.*?\])\n", t)
+    k = re.search(r"def builtinKeys : List String :=\s*(\[.*?\])\n", t)
+    return (json.loads(m.group(1)) if m else []) + ["funcs"], (json.loads(k.group(1)) if k else [])
+
+
+def standard_func_names():
+    from snowfakery.template_funcs import StandardFuncs
+
+    return sorted(n for n in dir(StandardFuncs.Functions) if not n.startswith("_") and n != "context")
+
+
+def scope_case(rng, builtin_keys, funcs):
+    pools = [builtin_keys, builtin_keys, ["T", "nk", "Other", "K"], ["v1"], ["f_prev"],
+             [f for f in ("random_number", "date", "fake", "reference", "if", "random_choice", "datetime") if f in funcs or f == "fake"],
+             ["o1", "zz", "Count", "this_"]]
+    name = rng.choice(rng.choice(pools))
+    return {"kind": "scope", "name": name, "read": rng.choice(SCOPE_READS), "decl": rng.choice(["main", "main", "include"]),
+            "version": rng.choice([2, 3]), "user": rng.choice([None, 7, 9]), "default": rng.choice([5, 6]),
+            "var_first": rng.random() < 0.5}
+
+
+def scope_recipe(c):
+    """-> (main text, files, reading table)"""
+    name, read = c["name"], c["read"]
+    decl = f"- option: {name}\n  default: {c['default']}\n- option: zz_ctl\n  default: {c['default']}\n"
+    got = "${{%s}}" % name
+    reader_fields = f"    got: {got}\n    ctl: ${{{{zz_ctl}}}}\n"
+    pre = ""
+    if c["var_first"]:
+        pre += "- var: v1\n  value: 11\n"
+    pre += "- object: Other\n  nickname: nk\n"
+    table = "T"
+    if read == "top-field":
+        body = "- object: T\n  count: 3\n  fields:\n" + reader_fields
+    elif read == "top-field-after":
+        body = "- object: T\n  count: 3\n  fields:\n    f_prev: 42\n" + reader_fields
+    elif read == "nested-field":
+        body = "- object: T\n  count: 2\n  fields:\n    kid:\n      - object: K\n        count: 2\n        fields:\n" + \
+            reader_fields.replace("    ", "          ")
+        table = "K"
+    elif read == "friend-field":
+        body = "- object: T\n  count: 2\n  friends:\n    - object: K\n      count: 2\n      fields:\n" + reader_fields.replace("    ", "        ")
+        table = "K"
+    elif read == "count":
+        body = f"- object: T\n  count: {got}\n  fields:\n    ctl: ${{{{zz_ctl}}}}\n"
+    elif read == "var":
+        body = f"- var: vv\n  value: {got}\n- object: T\n  count: 3\n  fields:\n    got: ${{{{vv}}}}\n    ctl: ${{{{zz_ctl}}}}\n"
+    elif read == "macro-field":
+        body = "- macro: mm\n  fields:\n" + reader_fields + "- object: T\n  count: 3\n  include: mm\n"
+    else:  # included-template
+        body = "- object: T\n  count: 3\n  fields:\n" + reader_fields
+    head = f"- snowfakery_version: {c['version']}\n"
+    files = {}
+    if read == "included-template":
+        files["inc.yml"] = (decl if c["decl"] == "include" else "") + pre + body
+        main = head + (decl if c["decl"] == "main" else "") + "- include_file: inc.yml\n"
+    elif c["decl"] == "include":
+        files["inc.yml"] = decl
+        main = head + "- include_file: inc.yml\n" + pre + body
+    else:
+        main = head + decl + pre + body
+    return main, files, table
+
+
+def scope_binds(c, builtin_keys, funcs):
+    """What each layer binds at the read position (from the recipe text, not from the code)."""
+    read = c["read"]
+    in_row = read in ("top-field", "top-field-after", "nested-field", "friend-field", "macro-field", "included-template")
+    row = []
+    if in_row:
+        row.append("id")
+    if read == "top-field-after":
+        row.append("f_prev")
+    if read in ("nested-field",):
+        pass
+    objs = ["Other", "nk", "T"] + (["K"] if read in ("nested-field", "friend-field") else [])
+    variables = (["v1"] if c["var_first"] else []) + (["child_index"] if in_row else []) + (["vv"] if read == "var" else [])
+    if read in ("nested-field", "friend-field", "count"):
+        # a template evaluated inside another row's loop still sees that loop's `child_index`
+        variables.append("child_index") if read != "count" else None
+    return {"builtins": list(builtin_keys), "options": [c["name"], "zz_ctl"], "object_names": objs, "row_fields": row,
+            "plugins": [], "variables": sorted(set(variables)), "funcs": list(funcs)}
+
+
+def py_resolve(order, binds, name):
+    for layer in reversed(order):
+        if name in binds.get(layer, []):
+            return layer
+    return None
+
+
+def run_scope(rep, c, order, builtin_keys, funcs, pending):
+    main, files, table = scope_recipe(c)
+    case = dict(c, recipe=main, files=files)
+    binds = scope_binds(c, builtin_keys, funcs)
+    layer = py_resolve(order, binds, c["name"])
+    expected = c["user"] if c["user"] is not None else c["default"]
+    opts = {} if c["user"] is None else {c["name"]: c["user"], "zz_ctl": c["user"]}
+    r = common.run_recipe(main, reps=1, options=opts, files=files or None)
+    rows = [dict(f) for t, f in r.rows if t == table]
+    rep.count("scope:resolves-to:" + str(layer))
+    rep.count("scope:read:" + c["read"])
+    pending.append((case, {"m": "c14.resolve", "order": order, "binds": binds, "name": c["name"]}, layer))
+    if layer == "options":
+        # the property: the option is visible -> the supplied value, else the default
+        if r.outcome != "ok":
+            rep.violation(SIG_SCOPE, f"option `{c['name']}` read at {c['read']} (declared in {c['decl']}): run ends {r.outcome} ({(r.error or '')[:100]}) although no nearer layer binds the name", case, expected, r.outcome)
+        elif c["read"] == "count":
+            if len(rows) != expected:
+                rep.violation(SIG_SCOPE, f"option `{c['name']}` = {expected} read in `count:`: {len(rows)} rows", case, expected, len(rows))
+        else:
+            bad = [(i, x.get("got"), x.get("ctl")) for i, x in enumerate(rows) if x.get("got") != x.get("ctl") or x.get("ctl") != expected]
+            if bad or not rows:
+                i, g, ctl = bad[0] if bad else (0, None, None)
+                rep.violation(SIG_SCOPE, f"option `{c['name']}` (value {expected}) read at {c['read']} (declared in {c['decl']}, dialect {c['version']}): row {i} gets {g!r}, the control option of the same value gets {ctl!r} — no nearer layer binds `{c['name']}`", case, expected, g)
+    elif r.outcome == "ok" and rows and c["read"] != "count":
+        # a nearer layer wins: where its value is known, it is what must be read
+        want = None
+        if layer == "row_fields":
+            want = [x.get("id") for x in rows] if c["name"] == "id" else [42] * len(rows)
+        elif layer == "variables" and c["name"] == "v1":
+            want = [11] * len(rows)
+        if want is not None and [x.get("got") for x in rows] != want:
+            rep.violation("C14:nearer-layer-not-read", f"`{c['name']}` is bound by the nearer layer {layer}: expected {want[:3]}, read {[x.get('got') for x in rows][:3]}", case, want, [x.get("got") for x in rows])
+    return case, r
+
+
+def flush_scope(rep, pending):
+    res = common.model_batch([req for _, req, _ in pending])
+    for (case, _, layer), m in zip(pending, res):
+        st, val = m
+        if st != "ok" or val != layer:
+            rep.disagreement("c14.resolve", case, val, layer)
+        rep.traces_validated += 1
+    pending.clear()
+
 # ----------------------------------------------------------------------------- run
 
 
@@ -1077,6 +1234,17 @@ def run(ctx, rep, findings):
                 case, r = option_cell(rep, version, user, dflt)
                 rep.case(case, nontrivial=True)
                 rep.count("option-cell:" + r.outcome.split(":")[0])
+    # ---- option visibility across the layers of the formula namespace
+    order, builtin_keys = pinned_layers()
+    funcs = standard_func_names()
+    rep.extra["pinned_namespace_layers"] = order
+    spend = []
+    fixed = [{"kind": "scope", "name": n, "read": rd, "decl": d, "version": v, "user": 7, "default": 5, "var_first": False}
+             for n in ("count", "this") for rd in ("top-field", "macro-field", "included-template") for d in ("main", "include") for v in (2, 3)]
+    for c in fixed + [scope_case(rng, builtin_keys, funcs) for _ in range(ctx.scale(160, 2500))]:
+        case, r = run_scope(rep, c, order, builtin_keys, funcs, spend)
+        rep.case({k: case[k] for k in ("name", "read", "decl", "version", "user", "default", "var_first")}, nontrivial=True)
+    flush_scope(rep, spend)
     pending, reqs = [], []
     for _ in range(ctx.scale(400, 6000)):
         case = merge_case(rng)
@@ -1192,6 +1360,11 @@ def replay(case, rep):
         version_case(rep, case["files"])
     elif k == "option-cell":
         option_cell(rep, case["version"], case["user"], case["default"])
+    elif k == "scope":
+        order, bk = pinned_layers()
+        sp = []
+        run_scope(rep, case, order, bk, standard_func_names(), sp)
+        flush_scope(rep, sp)
     elif k == "merge":
         pending = []
         req = run_merge(rep, case, pinned_tests(), pending)
